@@ -4,6 +4,10 @@ import re
 from collections import defaultdict
 
 
+BORROW_PROJ = {"index_mut", "index", "as_mut", "as_ref", "deref", "deref_mut", "as_mut_slice", "as_slice",
+               "borrow_mut", "borrow", "as_mut_ptr", "as_bytes_mut"}
+
+
 def type_head(ty):
     """`&'a frost_core::keys::SigningShare<C>` -> ('&', 'frost_core::keys::SigningShare')"""
     ty = ty.strip()
@@ -243,6 +247,17 @@ class Fn:
                         src = op.get("copy") or op.get("move")
                         ty = self.local_ty(l)
                         if src is not None and (ty.startswith("&") or ty.startswith("*")):
+                            roots.setdefault(l, set()).add(src["l"])
+                    # borrow projections through calls: `&mut buf[..]`, as_mut(), deref_mut() ...
+                for d in ds:
+                    if d[0] != "call":
+                        continue
+                    ci = callee_of(d[2])
+                    ty = self.local_ty(l)
+                    if ci and ci.get("name") in BORROW_PROJ and (ty.startswith("&") or ty.startswith("*")) and d[2]["args"]:
+                        a = d[2]["args"][0]
+                        src = a.get("copy") or a.get("move")
+                        if src is not None:
                             roots.setdefault(l, set()).add(src["l"])
             changed = True
             while changed:
